@@ -25,11 +25,13 @@ func init() {
 		ID:    "C14",
 		Level: "exploration",
 		Rule: "sweep over MTU {1280,1281,1399,1400,1499,1500} x padding maxima {0,1,128,255}^2 (and unset) x low-entropy mode {off,32,40,48,56} x write sizes {1, frag-1, frag, frag+1, 3*frag, first write 0/1/1024/1025} x both handshake modes, with the padding-length draws forced to their maximum and, separately, seeded; one forced drop per run so that retransmissions are on the wire; " +
-			"plus sequences of two sessions whose piggy-backed first writes differ in size {1,500,900,940,960,1000,1024} for four user names and MTUs {1280,1300,1366,1400}; every datagram on the tap is measured against the MTU and decoded by the reference codec (length fields vs actual lengths, 1024-byte session payloads, 32768/32764-byte fragments); plus the C02 fault exploration with the same monitor; TCP fragments via the C01 size matrix. distinct = distinct configurations",
+			"plus sequences of two sessions whose piggy-backed first writes differ in size {1,500,900,940,960,1000,1024} for four user names and MTUs {1280,1300,1366,1400}; every datagram on the tap is measured against the MTU and decoded by the reference codec (length fields vs actual lengths, 1024-byte session payloads, 32768/32764-byte fragments); plus the C02 fault exploration with the same monitor; TCP: single writes of 32763..98305 bytes around the fragment limit and its multiples x six patterns, both directions; a server greeting of 6 bytes followed 300 ms later by 700 / 1300 / 5000 bytes with low entropy at both ends (UDP x 3 MTUs, TCP). distinct = distinct configurations",
 		Assumptions: []string{"both ends are configured with the same MTU (the server's own MTU setting bounds what the server emits)"},
 		Units: func(tier string) []runner.Unit {
 			us := sweep(tier)
 			us = append(us, sequences(tier)...)
+			us = append(us, tcpLarge(tier)...)
+			us = append(us, greeting(tier)...)
 			us = append(us, c02.Units("C14", wire.MonitorC14, "faults1-,periodic")(tier)...)
 			return us
 		},
@@ -88,6 +90,64 @@ func sweep(tier string) []runner.Unit {
 					}
 				}
 				i++
+			}
+		}})
+	}
+	return us
+}
+
+// tcpLarge: single stream writes around the 32768-byte fragment limit and its multiples, for
+// every low-entropy mode (TCP has no MTU: the limits are the fragment size and the 16-bit length).
+func tcpLarge(tier string) []runner.Unit {
+	var us []runner.Unit
+	pats := xfer.Patterns("quick")
+	names := []string{"nil", "pad255", "le32", "le40-R1", "le48-R15", "le56-L1"}
+	for pi, pn := range names {
+		pi, pn := pi, pn
+		us = append(us, runner.Unit{Name: "tcp-large-writes-" + pn, Cost: 4, Run: func(u *runner.U) {
+			i := 0
+			for _, sz := range []int{32763, 32764, 32765, 32767, 32768, 32769, 32768 + 63, 32768 + 64, 65535, 65536, 65537, 65536 + 40, 98304 + 1} {
+				for _, srv := range []bool{false, true} {
+					i++
+					cw, sw := []int{sz}, []int{5}
+					if srv {
+						cw, sw = sw, cw
+					}
+					p := xfer.Params{Prop: "C14", CW: cw, SW: sw, RB: 65536, CTP: pn, STP: names[(pi+i)%len(names)], NSess: 1, Seed: int64(900 + pi*50 + i), PadMax: i%2 == 0}
+					xfer.RunOne(u, p, pats, explore.Bound{}, wire.MonitorC14)
+					if u.Expired() {
+						u.NotExhaustive("budget")
+						return
+					}
+				}
+			}
+		}})
+	}
+	return us
+}
+
+// greeting: the server application writes a few bytes at once (before anything of the client's
+// low-entropy traffic has arrived), pauses, then writes several fragments: whatever the first
+// write left behind (a fragment size, a mode) must not bound or mislabel the later ones.
+func greeting(tier string) []runner.Unit {
+	var us []runner.Unit
+	pats := xfer.Patterns("quick")
+	for _, udp := range []bool{true, false} {
+		udp := udp
+		us = append(us, runner.Unit{Name: fmt.Sprintf("greeting-then-reply-udp=%v", udp), Cost: 4, Run: func(u *runner.U) {
+			i := 0
+			for _, pn := range []string{"nil", "le32", "le40-R1", "le48-R15", "le56-L1", "le56-pad255-frag"} {
+				for _, mtu := range []int{1280, 1400, 1500} {
+					for _, big := range []int{700, 1300, 5000} {
+						i++
+						p := xfer.Params{Prop: "C14", UDP: udp, MTU: mtu, Latency: 5 * time.Millisecond, CW: []int{40, 40}, SW: []int{6, big}, RB: 65536,
+							CTP: pn, STP: pn, NSess: 1, Seed: int64(1200 + i), WriteGap: 300 * time.Millisecond, PadMax: i%2 == 0}
+						xfer.RunOne(u, p, pats, explore.Bound{}, wire.MonitorC14)
+						if !udp && mtu != 1400 {
+							continue
+						}
+					}
+				}
 			}
 		}})
 	}
